@@ -91,6 +91,7 @@ UNIT_FALLBACK = {
     "nodesall": _SLICE_FALLBACK + [("graph::verif::g_node_iter_seq", "3 calls next()/nth(n<=9) on a 9-base node")],
     "kmeriter": [("vmer::verif::lmer1::l_get_kmer_k5", "Lmer1 get_kmer Kmer5")],
     "compgraph": _SLICE_FALLBACK,
+    "buildstep": [],
 }
 
 def lmer(fams, tier, ks=None):
@@ -249,17 +250,17 @@ PROPS["C02"] = {
     "title": "Nodes are exactly the maximal unbranched paths",
     "kani": lambda tier: kfam(["k_min_rc", "k_extend_left", "k_extend_right"], tier)
         + exts(["x_num_ext_dir", "x_get_unique_extension", "x_single_dir", "x_has_ext", "x_dir"]),
-    "verus": [("compress", None), ("compgraph", r"^CompressFromGraph::|^Node::(len|data)$")],
+    "verus": [("compress", None), ("buildstep", r"^CompressFromHash::(left_step|right_step)$"), ("compgraph", r"^CompressFromGraph::|^Node::(len|data)$")],
     "bounded": lambda tier: [],
     "design_ref": "DESIGN.md §6 C02",
     "undecided": [
         "the global converse (a step refused only because the neighbour is no longer available is a legitimate boundary) and hence 'no two output nodes could be merged'; uniqueness of the decomposition",
-        "build_node / compress_kmers assembling the walked path into exactly one node (sequence, payload fold, terminal extensions) - see C01",
+        "build_node / compress_kmers assembling the walked path into exactly one node: the two path loops of build_node are under contract step by step (each step adds exactly the oriented first/last base of its k-mer and folds exactly that k-mer's payload: unit buildstep; node level: compgraph left_node_step / right_node_step), but the loops over the path, the terminal-extension matches (reference patterns Verus rejects) and compress_kmers' outer loop are not - see C01",
         "node level (CompressFromGraph): try_extend_node is proved sound in both directions relative to the link that find_link resolves (Unique only along an acceptable link, Terminal only if the node may not leave or the resolved link is not acceptable); the lookup result itself is only specified relationally (link_post)"],
     "trust": VERUS_TRUST + GRAPH_TRUST + [SEAM_NOTE,
-        "CompressionSpec::join_test is a deterministic predicate of the two payloads (join_spec)",
+        "CompressionSpec::join_test / reduce are deterministic functions of their arguments (join_spec, reduce_spec)",
         "precondition backlinks_ok: whenever a k-mer lists a base leading to a present non-palindromic neighbour, that neighbour lists at least one base on the facing side (the formal content of 'extensions reference only present k-mers'); it makes the panic!(\"unreachable\") branch provably unreachable"],
-    "level_text": "The link predicate of the statement is a machine-checked postcondition of the real CompressFromHash::try_extend_kmer: it returns Unique IF AND ONLY IF the k-mer has exactly one extension on that side, is not a palindrome (unstranded), the (canonicalised) neighbour is in the table and still available, is not a palindrome, has exactly one extension on the facing side and the join predicate accepts; and then names that neighbour, the flipped/unflipped walking direction and the far-side extensions. extend_kmer is proved (with termination) to walk only such links, to remove exactly the seed and the walked k-mers from the available set, and to stop only where the predicate fails (Verus, unbounded, on the extracted bodies).",
+    "level_text": "The link predicate of the statement is a machine-checked postcondition of the real CompressFromHash::try_extend_kmer: it returns Unique IF AND ONLY IF the k-mer has exactly one extension on that side, is not a palindrome (unstranded), the (canonicalised) neighbour is in the table and still available, is not a palindrome, has exactly one extension on the facing side and the join predicate accepts; and then names that neighbour, the flipped/unflipped walking direction and the far-side extensions. extend_kmer is proved (with termination) to walk only such links, to remove exactly the seed and the walked k-mers from the available set, and to stop only where the predicate fails (Verus, unbounded, on the extracted bodies). The bodies of build_node's two path loops (rule R15) are proved to add exactly one base - the first resp. last base of the step's k-mer as spelled on the seed's strand - and to fold exactly that k-mer's payload with the caller's reduction.",
     "level_note": "Partial claim: per-step and per-walk contracts are proved; the whole-run invariant (partition into nodes, maximality after all walks) is not - listed in undecided_clauses. Trusted: Verus/Z3, extractor rules, abstract BoomHashMap2/BitSet contracts, the V<->K seam for k-mer and Exts primitives.",
 }
 
@@ -317,7 +318,7 @@ PROPS["C09"] = {
               ("compgraph", r"^CompressFromGraph::|^Node::(len|data)$")],
     "bounded": lambda tier: [],
     "design_ref": "DESIGN.md §6 C09",
-    "undecided": ["k-mer set of the result == k-mers of non-censored nodes; maximality; payload fold; idempotence; agreement with the direct route - all need build_node / sequence_of_path / the global invariant"],
+    "undecided": ["k-mer set of the result == k-mers of non-censored nodes; maximality; idempotence; agreement with the direct route - all need sequence_of_path / the global invariant; payload fold only step-wise (left_node_step / right_node_step: each step folds exactly the walked node's payload and records it on the proper end with the proper orientation)"],
     "trust": VERUS_TRUST + GRAPH_TRUST + [SEAM_NOTE],
     "level_text": "Partial claim: (1) the two pruning calls of compress_graph - fix_exts(Some(&available)) and fix_exts(None) - are proved to leave no extension pointing at a censored/removed node or at no node, and to drop nothing else; (2) CompressFromGraph::try_extend_node is proved panic-free under exactly the state fix_exts establishes (every extension resolves; available targets list an extension back) and to return Unique only along a link that find_link resolves to an available, non-palindromic, join-accepted node with a sole facing extension - naming the target, the continuation side and the far extensions - and Terminal otherwise; (3) extend_node is proved to terminate, to take exactly the start node and the walked nodes out of the available set and never to visit a node twice (Verus, unbounded, real bodies).",
     "level_note": "Partial claim; everything about the re-compressed node SET itself (k-mer set, maximality, payload fold, idempotence) is listed in undecided_clauses. Trusted: Verus/Z3, extractor rules, abstract BoomHashMap/BitSet contracts, the V<->K seam.",
